@@ -1040,7 +1040,19 @@ def O10(p):
                     del q.lines[i].lex[lt:lt + 2]
                     q.lines[i - 1].lex += [SP(), o]
                     return i - 1
-                yield ln.info["K"], ap
+                prev = [x for x in p.lines[i - 1].lex if x.k not in ("sp", "tab")]
+                after_cast_group = False
+                if prev and prev[-1].t == ")":
+                    depth = 0
+                    for m in range(len(prev) - 1, -1, -1):
+                        if prev[m].t == ")":
+                            depth += 1
+                        elif prev[m].t == "(":
+                            depth -= 1
+                            if depth == 0:
+                                after_cast_group = m > 0 and "cast-close" in prev[m - 1].tags
+                                break
+                yield ln.info["K"] + (":after-cast-of-parenthesised-expr" if after_cast_group else ""), ap
 
 
 @op("O11", "COMMA_START_LINE", ("c",))
